@@ -648,8 +648,18 @@ def _check(r):
                 r["pos"], len(out), " ; ".join(ser.pos_str(p_) for _, p_ in out), ans)
         return None
     # the remaining kinds transform a position with one matrix
-    sym = mat_np(r["sym"])
     pos = ser.parse_pos(r["pos"].split(" "))
+    # history: the other symmetries have been applied before, each handed over as a temporary array that
+    # is gone by now (the tie does this too); on code that only looks at the VALUE of the matrix it changes nothing
+    import numpy as _np
+
+    for s_ in S.SYMMETRIES:
+        if mat_list(s_) != list(r["sym"]):
+            try:
+                S.transform_position(_np.array(s_, copy=True), pos)
+            except Exception:
+                pass
+    sym = mat_np(r["sym"])
     o, tq = tpos_out(sym, pos)
     if tq is None:
         return "commute-fails", "transform_position(%s, [%s]) raises: %s" % (r["sym"], r["pos"], o)
